@@ -35,6 +35,9 @@ fn inst(
         body: Arc::new(body),
         k: 0,
         m3l_stale: None,
+        no_ship: false,
+        bounds_quick: None,
+        bounds_thorough: None,
         pk_quick: Vec::new(),
         pk_thorough: Vec::new(),
         p_with_k: None,
@@ -249,6 +252,7 @@ fn more_family<
                 x.p_with_k = Some(3);
                 // the second list order doubles the cost and has not caught anything the first misses
                 x.thorough_only = r_first;
+                x.no_ship = r_first;
                 out.push(x);
             }
         }
@@ -392,6 +396,7 @@ fn more_family<
                 if kind == 0 {
                     x.m3l_stale = Some(1);
                 }
+                x.no_ship = kind != 0;
                 out.push(x);
             }
         }
@@ -461,22 +466,30 @@ fn more_family<
                 move || h_more::migrate::<S>(fill),
             ));
         }
-        out.push(inst(
-            format!("churn_two:{}", path),
-            &["C01", "C02", "C08", "C09", "C10", "C11", "C13"],
-            Fresh,
-            3,
-            "T0{load, exit} done; X{first use: load, drop} || Y{first use: load, drop} || W{store}",
-            move || h_more::churn_two::<S>(false),
-        ));
-        out.push(inst(
-            format!("churn_two_rcu:{}", path),
-            &["C06", "C11"],
-            Fresh,
-            3,
-            "T0{load, exit} done; X{first use: rcu} || Y{first use: rcu} || W{rcu}",
-            move || h_more::churn_two::<S>(true),
-        ));
+        {
+            let mut x = inst(
+                format!("churn_two:{}", path),
+                &["C01", "C02", "C08", "C09", "C10", "C11", "C13"],
+                Fresh,
+                3,
+                "T0{load, exit} done; X{first use: load, drop} || Y{first use: load, drop} || W{store}",
+                move || h_more::churn_two::<S>(false),
+            );
+            // three first uses of the crate make long executions: one more stale read in the
+            // thorough tier instead of one more preemption
+            x.bounds_thorough = Some((2, 2, 1));
+            out.push(x);
+            let mut x = inst(
+                format!("churn_two_rcu:{}", path),
+                &["C06", "C11"],
+                Fresh,
+                3,
+                "T0{load, exit} done; X{first use: rcu} || Y{first use: rcu} || W{rcu}",
+                move || h_more::churn_two::<S>(true),
+            );
+            x.bounds_thorough = Some((2, 2, 0));
+            out.push(x);
+        }
         for ww in [false, true] {
             out.push(inst(
                 format!("tls_gone{}:{}", if ww { "_w" } else { "" }, path),
